@@ -756,6 +756,13 @@ class FileProxy:
                 fl.maybe_io_error('write', self._path)
             return self._f.write(s)
         CTX.rec.io_point(self._kind, 'pre-write')
+        fl = CTX.faults
+        if fl is not None and self._kind == 'out':
+            try:
+                fl.out_io('write', self._f, s)
+            except OSError:
+                CTX.rec.io_point(self._kind, 'write-failed')
+                raise
         r = self._f.write(s)
         CTX.rec.io_point(self._kind, 'write')
         return r
@@ -770,6 +777,14 @@ class FileProxy:
         return r
 
     def close(self):
+        fl = CTX.faults
+        if (fl is not None and self._kind == 'out'
+                and not self._f.closed):
+            try:
+                fl.out_io('close', self._f)
+            except OSError:
+                CTX.rec.io_point(self._kind, 'close-failed')
+                raise
         r = self._f.close()
         CTX.rec.io_point(self._kind, 'close')
         if self._kind == 'out' and os.path.abspath(
